@@ -14,14 +14,23 @@ class FakeConnection:
     """duck-typed stand-in for indi.transport.client.tcp.TCP: connect() builds the REAL client
     ConnectionHandler on fake streams and spawns the REAL server handler for the other end."""
 
-    def __init__(self, world, name):
+    def __init__(self, world, name, gated=False):
         self.world = world
         self.name = name
         self.link = None
+        # gated: connect() completes only when the explorer opens the gate (connection latency: the order in which
+        # the client's two connections get established is the environment's choice)
+        self.gate = None
+        if gated:
+            import asyncio
+
+            self.gate = asyncio.Event()
 
     async def connect(self, callback, for_blobs=False):
         from indi.transport.client.tcp import ConnectionHandler
 
+        if self.gate is not None:
+            await self.gate.wait()
         link = self.world.new_link(self.name)
         self.link = link
         return ConnectionHandler(link.client_ep.reader, link.client_ep.writer, callback, for_blobs=for_blobs)
@@ -146,12 +155,18 @@ class World:
             out.append(l.s2c)
         return out
 
-    def make_client(self):
+    def make_client(self, connect_order=None):
+        """connect_order: None (both connections are established at once) or a sequence such as ("ctl", "blob") /
+        ("blob", "ctl"): the connections are established in that order, with everything in flight delivered in between"""
         from indi.client.client import Client
 
-        c = Client(FakeConnection(self, "ctl"), FakeConnection(self, "blob"))
+        conns = {"ctl": FakeConnection(self, "ctl", gated=bool(connect_order)), "blob": FakeConnection(self, "blob", gated=bool(connect_order))}
+        c = Client(conns["ctl"], conns["blob"])
         t = self.loop.create_task(c.start())
         self.settle()
+        for which in connect_order or ():
+            conns[which].gate.set()
+            self.settle()
         if not t.done():
             raise HandshakeFailed("Client.start() did not complete")
         t.result()
